@@ -13,6 +13,8 @@
 //!   `uop a=<base>@<size:stride,…>` → `shape=<shape> data=<ints>`   (`Neg` on such a view: `unary_op`)
 //!   `ti in=<base>@<dims> perms=<p;p;…>` (`r` = reverse) → `shape=… data=…` | `err` | `panic`
 //!       nested `TransformInputs(…(Identity))` wrappers: the transform list applied to a view.
+//!   `red a=<base>@<dims> k=<n>` → `shape=… data=…`   ReduceSum (keepdims) over the innermost `k` axes of an
+//!       i32 view with arbitrary strides (`reduce`: contiguous-chunks fast path vs lanes / packed slices).
 //!   `cov <names>` → `not-exercised=<names>`: registry operators (translate/registry_ops.py) without a case.
 //! Oracle-only requests (`#lay …`): for every catalogue operator, the same logical inputs presented as
 //! contiguous tensors (baseline) and as views of differently laid-out storage — permuted, transposed, strided
@@ -501,6 +503,51 @@ fn uop_case(cx: &mut Ctx, rng: &mut Rng) {
     cx.out.case(&req, &ans, None, true);
 }
 
+fn red_case(cx: &mut Ctx, rng: &mut Rng) {
+    let sh = loop {
+        let s = rshape(rng, 4, 1);
+        if numel(&s) <= 64 {
+            break s;
+        }
+    };
+    let (base, dims) = rand_view(rng, &sh);
+    let k = 1 + rng.usize_below(sh.len());
+    let req = format!("red a={} k={k}", view_str(base, &dims));
+    let stor: Vec<i32> = (0..storage_len(base, &dims) as i32 + 2).map(|i| i + 1).collect();
+    let axes: Vec<i64> = (sh.len() - k..sh.len()).map(|a| a as i64).collect();
+    let case = Case {
+        name: "r",
+        onnx: "ReduceSum",
+        domain: "",
+        attrs: vec![("keepdims".to_string(), onnx_enc::Attr::Int(1))],
+        inputs: vec![Some(ti(rng, &[1])), Some(ivec(&[0]))],
+        n_out: 1,
+        data_inputs: vec![],
+    };
+    let op = cx.cache.get(&case).expect("ReduceSum loads");
+    let axes_v = ivec(&axes);
+    let r = hcommon::catch(|| {
+        let v = rten_tensor::TensorView::from_slice_with_strides(&sh[..], &stor[base..], &dims.iter().map(|d| d.1).collect::<Vec<_>>()[..])
+            .map_err(|e| format!("{e:?}"))?;
+        let cont = v.to_tensor();
+        let ins = vec![Some(ValueView::from(v)), Some((&axes_v).into())];
+        let o = run_op(&*op, &ins, 1)?;
+        let ins2 = vec![Some(ValueView::from(cont.view())), Some((&axes_v).into())];
+        let o2 = run_op(&*op, &ins2, 1)?;
+        Ok::<_, String>((canon(&o[0]), canon(&o2[0])))
+    });
+    let (ans, fail) = match r {
+        Ok(Ok((c, c2))) => (
+            format!("shape={} data={}", shp(&c.shape), ints(&c.bits.iter().map(|&b| b as i32).collect::<Vec<_>>())),
+            (c != c2).then_some("ReduceSum on the view differs from ReduceSum on its contiguous copy"),
+        ),
+        Ok(Err(_)) => ("err".to_string(), None),
+        Err(m) => (format!("panic {m}"), Some("ReduceSum panicked")),
+    };
+    cx.out.bucket("red");
+    cx.out.case(&req, &ans, fail, true);
+}
+
 fn ti_case(cx: &mut Ctx, rng: &mut Rng) {
     let sh = loop {
         let s = rshape(rng, 4, 0);
@@ -614,6 +661,7 @@ fn run(args: &Args) {
     for _ in 0..n_glue / 3 {
         uop_case(&mut cx, &mut rng);
         ti_case(&mut cx, &mut rng);
+        red_case(&mut cx, &mut rng);
     }
     // (b) every catalogue operator under layout changes
     let per_op = if args.thorough { 10_000 } else { 1_000 };
